@@ -4465,6 +4465,11 @@ class ParseCtx:
         name = from_tree.value
 
         if type(context) is not MacroArgumentKind:
+            # An argument of the macro being expanded takes precedence over a global name of any of the kinds asked for
+            for entry in self.bound_argument_stack[-1:]:
+                for attempt in context:
+                    if (attempt, name) in entry:
+                        return entry[(attempt, name)], attempt
             for attempt in context:
                 try:
                     return self._lookup_named_entity(attempt, from_tree), attempt
@@ -4694,8 +4699,9 @@ class ParseCtx:
         elif expr.data == "math_char_const":
             return ProgramData.imbue(ProgramData.imbue(LiteralIntegerExpr(ord(self._convert_char_const(expr.children[0].value))), DTAG.SOURCE_LINE, expr.meta.line), DTAG.SOURCE_COLUMN, expr.meta.column)
         elif expr.data == "math_var":
-            # Try to handle enums too
-            if into_storage is not None and into_storage.type == OutputStorageType.ENUM and expr.children[0].value in into_storage.enum_values:
+            # Try to handle enums too (an argument of the macro being expanded takes precedence, as it does outside of brackets)
+            is_argument = any((kind, expr.children[0].value) in entry for entry in self.bound_argument_stack[-1:] for kind in (MacroArgumentKind.EXPR, MacroArgumentKind.OUT))
+            if not is_argument and into_storage is not None and into_storage.type == OutputStorageType.ENUM and expr.children[0].value in into_storage.enum_values:
                 val = LiteralIntegerExpr(expr.children[0].value, OutputStorageType.ENUM, model_ref=into_storage)
                 ProgramData.imbue(val, DTAG.SOURCE_LINE, expr.children[0].line)
                 ProgramData.imbue(val, DTAG.SOURCE_COLUMN, expr.children[0].column)
